@@ -108,6 +108,7 @@ type Task struct {
 	wantLock uintptr
 	// wantShared: the pending acquisition is the read side of a RWMutex
 	wantShared bool
+	wantSeq    uint64 // order of the pending lock request among all requests
 	// waiting: the task polls something the simulator does not own (channel,
 	// WaitGroup) and found it not ready when progress stood at waitStamp
 	waiting   bool
@@ -248,7 +249,8 @@ type Sched struct {
 	// Outcome
 	Deadlock string
 	Runaway  bool
-	passive  int // events that were logged without being scheduling points
+	wantN    uint64 // lock requests so far (orders waiting readers and writers)
+	passive  int    // events that were logged without being scheduling points
 	active   bool
 }
 
@@ -486,6 +488,12 @@ func (s *Sched) runnable() []*Task {
 			if !t.wantShared && s.readers[t.wantLock] > 0 {
 				continue
 			}
+			if t.wantShared && s.readers[t.wantLock] > 0 && s.writerWaitsBefore(t) {
+				// sync.RWMutex: a Lock call that waits for the readers to leave
+				// keeps new readers out - also a goroutine that already holds a
+				// read lock and asks for it again
+				continue
+			}
 			if d := s.Cfg.Direct; d != nil && s.dirActive && t.ID == d.TaskA && s.lockName[t.wantLock] == d.Second && s.holdsNamed(t, d.First) {
 				b := s.tasks[d.TaskB]
 				if !b.done && !s.holdsNamed(b, d.Second) {
@@ -506,6 +514,19 @@ func (s *Sched) runnable() []*Task {
 		}
 	}
 	return out
+}
+
+// writerWaitsBefore tells whether some other task asked for the exclusive lock
+// that t wants to share before t did (and is still waiting for it).
+//
+//go:norace
+func (s *Sched) writerWaitsBefore(t *Task) bool {
+	for _, w := range s.tasks {
+		if w != t && !w.done && w.wantLock == t.wantLock && !w.wantShared && w.wantSeq < t.wantSeq {
+			return true
+		}
+	}
+	return false
 }
 
 //go:norace
@@ -728,6 +749,14 @@ func (s *Sched) Run() {
 				}
 				s.lockName[m.key] = m.obj
 				free := s.owner[m.key] == nil && (m.shared || s.readers[m.key] == 0)
+				if free && m.shared && s.readers[m.key] > 0 {
+					// TryRLock fails while a writer waits for the readers to leave
+					for _, w := range s.tasks {
+						if w != m.task && !w.done && w.wantLock == m.key && !w.wantShared {
+							free = false
+						}
+					}
+				}
 				if !free {
 					s.log(m.task, "trylock-failed", m.obj, "")
 					s.resumeWith(m.task, 0)
@@ -781,6 +810,8 @@ func (s *Sched) Run() {
 				}
 				m.task.wantLock = m.key
 				m.task.wantShared = m.shared
+				s.wantN++
+				m.task.wantSeq = s.wantN
 				break inner
 			case mUnlock:
 				if m.obj == "" {
@@ -995,6 +1026,9 @@ func (s *Sched) waitGraph() string {
 				on = o.Name
 			} else if s.readers[t.wantLock] > 0 {
 				on = itoa(s.readers[t.wantLock]) + " reader(s)"
+				if t.wantShared {
+					on += " (a read lock, refused because a writer asked first and waits for the readers to leave)"
+				}
 			}
 			parts = append(parts, fmt.Sprintf("%s waits for %s held by %s", t.Name, s.lockName[t.wantLock], on))
 		} else if t.waiting {
